@@ -42,6 +42,19 @@ let handle (toks: string list) : string =
   | "txtdec" :: id :: fs :: hex :: [] ->
       let f = (match fs with "dos3x" -> TDos | "prodos" -> TProdos | _ -> TCpm) in
       id ^ " ok:" ^ hex_of_bytes (text_decode f (hexarg hex))
+  | "pdtree" :: id :: _label :: spec :: [] ->
+      (* the same chunk set on a fresh volume: free blocks are 7, 8, 9, ... *)
+      let idx = List.concat_map (fun p -> match String.split_on_char '-' p with
+        | [a; b] -> List.init (int_of_string b - int_of_string a + 1) (fun k -> int_of_string a + k)
+        | _ -> [int_of_string p]) (String.split_on_char ',' spec) in
+      let cs = List.map n_of_int idx in
+      if int_of_n (cs_end cs) > 32768 then id ^ " refused" else
+      let free = List.init 4000 (fun k -> n_of_int (7 + k)) in
+      let l = pd_layout cs free in
+      let master = List.concat (List.mapi (fun g p -> if int_of_n p > 0 then [string_of_int g ^ ":" ^ string_of_int (int_of_n p)] else []) l.l_master) in
+      let pairs = List.map (fun (c, b) -> string_of_int (int_of_n c) ^ ":" ^ string_of_int (int_of_n b)) (pd_read l) in
+      id ^ " " ^ string_of_int (int_of_n l.l_storage) ^ " " ^ string_of_int (int_of_n l.l_key) ^ " " ^ string_of_int (int_of_n l.l_blocks)
+         ^ " ; " ^ String.concat "," master ^ " ; " ^ String.concat "," pairs
   | "pasenc" :: id :: hex :: [] ->
       id ^ " " ^ (match pas_encode (hexarg hex) with Some l -> "ok:" ^ hex_of_bytes l | None -> "none")
   | "pasdec" :: id :: hex :: [] ->
@@ -80,7 +93,12 @@ let handle (toks: string list) : string =
       let path_of (s:string) : n list list =
         if flat then
           let s = String.uppercase_ascii s in
-          let s = (match String.index_opt s ':' with Some i -> String.sub s 0 i ^ "/" ^ String.sub s (i+1) (String.length s - i - 1) | None -> "0/" ^ s) in
+          (* the user number may be spelled 0, 00, +0: one user area *)
+          let s = (match String.index_opt s ':' with
+            | Some i -> let u = String.sub s 0 i in
+                        let u' = (match int_of_string_opt u with Some v -> string_of_int v | None -> u) in
+                        u' ^ "/" ^ String.sub s (i+1) (String.length s - i - 1)
+            | None -> "0/" ^ s) in
           [name_of s]
         else List.map name_of (String.split_on_char '/' s) in
       let str_of_name (nm: n list) = String.concat "" (List.map (fun c -> String.make 1 (Char.chr (int_of_n c))) nm) in
